@@ -67,3 +67,30 @@ def expr_chain_from(src, anchor):
             bo = src.index('{', j - 1) if src[j-1] == '{' else L.body_open(src, j)
             bc = L.match_close(src, bo)
             return src[a:bc + 1], a, bc + 1
+
+def match_expr_after(src, anchor):
+    """the `match SCRUTINEE { .. }` expression that follows anchor text (e.g. a closure header `|a, b| `)."""
+    a = L.find_code(src, anchor)
+    if a < 0: raise LostAnchor(anchor)
+    s = a + len(anchor)
+    m = re.match(r'\s*match\b', src[s:])
+    if not m: raise LostAnchor(anchor + ' match')
+    s += len(m.group(0)) - len('match')
+    bo = L.body_open(src, s)
+    bc = L.match_close(src, bo)
+    return src[s:bc + 1], s, bc + 1
+
+def if_stmt(src, anchor):
+    """the `if COND { .. }` statement (without else) starting at anchor."""
+    a = L.find_code(src, anchor)
+    if a < 0: raise LostAnchor(anchor)
+    bo = L.body_open(src, a)
+    bc = L.match_close(src, bo)
+    return src[a:bc + 1], a, bc + 1
+
+def if_condition(src, anchor):
+    """the condition text of the `if` that starts at anchor (anchor = 'if ' + beginning of the condition)."""
+    a = L.find_code(src, anchor)
+    if a < 0: raise LostAnchor(anchor)
+    bo = L.body_open(src, a)
+    return src[a + 3:bo].strip(), a + 3, bo
